@@ -19,10 +19,10 @@ Proof.
   intros _. unfold llen. rewrite sumlen_app, app_length. simpl. lia.
 Qed.
 
-Lemma esc_head_snoc md l w : l <> [] -> esc_head md (l ++ [w]) = esc_head md l ++ [w].
+Lemma esc_head_snoc esc md l w : l <> [] -> esc_head esc md (l ++ [w]) = esc_head esc md l ++ [w].
 Proof. destruct l; [congruence|reflexivity]. Qed.
 
-Lemma esc_head_length md l : length (esc_head md l) = length l.
+Lemma esc_head_length esc md l : length (esc_head esc md l) = length l.
 Proof. destruct l; reflexivity. Qed.
 
 Lemma firstn_len_app {A} (a b : list A) : firstn (length a) (a ++ b) = a.
@@ -31,15 +31,16 @@ Lemma skipn_len_app {A} (a b : list A) : skipn (length a) (a ++ b) = b.
 Proof. induction a; simpl; congruence. Qed.
 
 Section FillFacts.
+  Variable esc : word -> word.
   Variables (width c0 c1 : Z) (md : bool).
 
   Lemma chk_cons (first : bool) scol (l : list word) L ws orig rest :
     l <> [] -> ws = orig ++ rest -> length orig = length l ->
-    l = (if first then orig else esc_head md orig) ->
+    l = (if first then orig else esc_head esc md orig) ->
     (scol + llen l <= width \/ length l = 1%nat) ->
     match rest with [] => True | h :: _ => width < scol + llen l + 1 + wlen h end ->
-    chk_lines width c1 md false c1 L rest = true ->
-    chk_lines width c1 md first scol (l :: L) ws = true.
+    chk_lines esc width c1 md false c1 L rest = true ->
+    chk_lines esc width c1 md first scol (l :: L) ws = true.
   Proof.
     intros Hne -> Hlen Hl Hw Hm Hr. cbn [chk_lines].
     rewrite <- Hlen, firstn_len_app, skipn_len_app, Hr.
@@ -56,24 +57,24 @@ Section FillFacts.
      of the loop produces lines accepted by the specification checker. *)
   Lemma fill_chk : forall (ws cur curo : list word) scol (first : bool),
     cur <> [] ->
-    cur = (if first then curo else esc_head md curo) ->
+    cur = (if first then curo else esc_head esc md curo) ->
     (scol + llen cur <= width \/ length cur = 1%nat) ->
-    chk_lines width c1 md first scol
-      (fill width c0 c1 md ws cur (scol + llen cur) first) (curo ++ ws) = true.
+    chk_lines esc width c1 md first scol
+      (fill esc width c0 c1 md ws cur (scol + llen cur) first) (curo ++ ws) = true.
   Proof.
     induction ws as [|w ws IH]; intros cur curo scol first Hne Hcur Hw;
       assert (Hlen : length curo = length cur)
         by (subst cur; destruct first; [reflexivity|now rewrite esc_head_length]).
-    - assert (Hf : fill width c0 c1 md [] cur (scol + llen cur) first = [cur])
+    - assert (Hf : fill esc width c0 c1 md [] cur (scol + llen cur) first = [cur])
         by (destruct cur; [congruence|reflexivity]).
       rewrite Hf. apply chk_cons with (orig := curo) (rest := []); auto; try exact I.
     - assert (Hneo : curo <> []).
       { intro E. subst curo. destruct cur; [congruence|discriminate]. }
-      assert (Hf : fill width c0 c1 md (w :: ws) cur (scol + llen cur) first =
+      assert (Hf : fill esc width c0 c1 md (w :: ws) cur (scol + llen cur) first =
                    if scol + llen cur + wlen w + 1 <=? width
-                   then fill width c0 c1 md ws (cur ++ [w]) (scol + llen cur + wlen w + 1) first
-                   else cur :: fill width c0 c1 md ws [if md then escape_word w else w]
-                                 (c1 + wlen (if md then escape_word w else w)) false)
+                   then fill esc width c0 c1 md ws (cur ++ [w]) (scol + llen cur + wlen w + 1) first
+                   else cur :: fill esc width c0 c1 md ws [if md then esc w else w]
+                                 (c1 + wlen (if md then esc w else w)) false)
         by (destruct cur; [congruence|reflexivity]).
       rewrite Hf. clear Hf.
       destruct (scol + llen cur + wlen w + 1 <=? width) eqn:Efit.
@@ -89,13 +90,13 @@ Section FillFacts.
       + (* the word does not fit: flush the line *)
         apply Z.leb_gt in Efit.
         apply chk_cons with (orig := curo) (rest := w :: ws); auto; [lia|].
-        set (ew := if md then escape_word w else w).
+        set (ew := if md then esc w else w).
         replace (c1 + wlen ew) with (c1 + llen [ew]) by (now rewrite llen_single).
         change (w :: ws) with ([w] ++ ws).
         apply IH; [discriminate|reflexivity|now right].
   Qed.
 
-  Theorem wrap_words_ok ws : wrap_ok ws width c0 c1 md (wrap_words ws width c0 c1 md) = true.
+  Theorem wrap_words_ok ws : wrap_ok esc ws width c0 c1 md (wrap_words esc ws width c0 c1 md) = true.
   Proof.
     unfold wrap_ok, wrap_words. destruct ws as [|w ws]; [reflexivity|].
     cbn [fill]. rewrite Z.add_0_r. cbn [negb andb]. rewrite andb_false_r.
@@ -110,13 +111,13 @@ Section FillFacts.
   Fixpoint esc_lines (first : bool) (Lo : list (list word)) : list (list word) :=
     match Lo with
     | [] => []
-    | l :: r => (if first then l else esc_head md l) :: esc_lines false r
+    | l :: r => (if first then l else esc_head esc md l) :: esc_lines false r
     end.
 
   Definition col_at (scol : Z) (i : nat) : Z := match i with O => scol | S _ => c1 end.
 
   Lemma chk_sound : forall L first scol ws,
-    chk_lines width c1 md first scol L ws = true ->
+    chk_lines esc width c1 md first scol L ws = true ->
     exists Lo,
       concat Lo = ws /\ L = esc_lines first Lo /\ Forall (fun l => l <> []) Lo /\
       (forall i l, nth_error L i = Some l ->
@@ -131,7 +132,7 @@ Section FillFacts.
       + intros [|i] l h t Hn; discriminate.
     - cbn [chk_lines] in H.
       repeat (apply andb_true_iff in H; destruct H as [H ?]).
-      match goal with Hr : chk_lines _ _ _ false c1 L _ = true |- _ => apply IH in Hr;
+      match goal with Hr : chk_lines _ _ _ _ false c1 L _ = true |- _ => apply IH in Hr;
         destruct Hr as [Lo [Hcat [HL [Hne [Hwid Hmax]]]]] end.
       set (n := length l) in *. set (orig := firstn n ws) in *. set (rest := skipn n ws) in *.
       match goal with Hs : strs_eqb l _ = true |- _ => apply strs_eqb_eq in Hs; rename Hs into Hl end.
@@ -157,36 +158,37 @@ Section FillFacts.
 
 End FillFacts.
 
-(* ---- C05 statements at the level of the wrap loop ---- *)
+(* ---- C05 statements at the level of the wrap loop (for any escape function) ---- *)
 
 (* Lossless: the output lines are the input words in order; line 0 is verbatim, the
-   head of every later line has been passed through escape_word when md, nothing else. *)
-Theorem wrap_lossless ws width c0 c1 md :
+   head of every later line has been passed through the escape function when md,
+   nothing else. *)
+Theorem wrap_lossless esc ws width c0 c1 md :
   exists Lo, concat Lo = ws /\ Forall (fun l => l <> []) Lo /\
-             wrap_words ws width c0 c1 md = esc_lines md true Lo.
+             wrap_words esc ws width c0 c1 md = esc_lines esc md true Lo.
 Proof.
-  destruct (chk_sound width c1 md _ _ _ _ (wrap_words_ok width c0 c1 md ws))
+  destruct (chk_sound esc width c1 md _ _ _ _ (wrap_words_ok esc width c0 c1 md ws))
     as [Lo [H1 [H2 [H3 _]]]].
   exists Lo; auto.
 Qed.
 
-Lemma esc_lines_plain first Lo : esc_lines false first Lo = Lo.
+Lemma esc_lines_plain esc first Lo : esc_lines esc false first Lo = Lo.
 Proof.
   revert first; induction Lo as [|l r IH]; intros first; [reflexivity|].
   cbn [esc_lines]. rewrite IH. destruct first; [reflexivity|]. destruct l; reflexivity.
 Qed.
 
-Corollary wrap_lossless_plain ws width c0 c1 :
-  concat (wrap_words ws width c0 c1 false) = ws.
+Corollary wrap_lossless_plain esc ws width c0 c1 :
+  concat (wrap_words esc ws width c0 c1 false) = ws.
 Proof.
-  destruct (wrap_lossless ws width c0 c1 false) as [Lo [H1 [_ H3]]].
+  destruct (wrap_lossless esc ws width c0 c1 false) as [Lo [H1 [_ H3]]].
   now rewrite H3, esc_lines_plain.
 Qed.
 
-Theorem wrap_no_empty_line ws width c0 c1 md :
-  Forall (fun l => l <> []) (wrap_words ws width c0 c1 md).
+Theorem wrap_no_empty_line esc ws width c0 c1 md :
+  Forall (fun l => l <> []) (wrap_words esc ws width c0 c1 md).
 Proof.
-  destruct (wrap_lossless ws width c0 c1 md) as [Lo [_ [H2 H3]]]. rewrite H3.
+  destruct (wrap_lossless esc ws width c0 c1 md) as [Lo [_ [H2 H3]]]. rewrite H3.
   clear H3. generalize true. induction H2 as [|l r Hl Hr IH]; intros b; constructor.
   - destruct b; [assumption|]. destruct l; [congruence|discriminate].
   - apply IH.
@@ -194,24 +196,24 @@ Qed.
 
 (* Width bound: line 0 starts at column c0, every later line at c1; a line is wider
    than the width only if it is a single word. *)
-Theorem wrap_width ws width c0 c1 md i l :
-  nth_error (wrap_words ws width c0 c1 md) i = Some l ->
+Theorem wrap_width esc ws width c0 c1 md i l :
+  nth_error (wrap_words esc ws width c0 c1 md) i = Some l ->
   col_at c1 c0 i + llen l <= width \/ length l = 1%nat.
 Proof.
-  destruct (chk_sound width c1 md _ _ _ _ (wrap_words_ok width c0 c1 md ws))
+  destruct (chk_sound esc width c1 md _ _ _ _ (wrap_words_ok esc width c0 c1 md ws))
     as [Lo [_ [_ [_ [H4 _]]]]].
   apply H4.
 Qed.
 
 (* Maximality: the (unescaped) first word of the next line would not have fit. *)
-Theorem wrap_maximal ws width c0 c1 md :
-  exists Lo, concat Lo = ws /\ wrap_words ws width c0 c1 md = esc_lines md true Lo /\
+Theorem wrap_maximal esc ws width c0 c1 md :
+  exists Lo, concat Lo = ws /\ wrap_words esc ws width c0 c1 md = esc_lines esc md true Lo /\
     forall i l h t,
-      nth_error (wrap_words ws width c0 c1 md) i = Some l ->
+      nth_error (wrap_words esc ws width c0 c1 md) i = Some l ->
       nth_error Lo (S i) = Some (h :: t) ->
       width < col_at c1 c0 i + llen l + 1 + wlen h.
 Proof.
-  destruct (chk_sound width c1 md _ _ _ _ (wrap_words_ok width c0 c1 md ws))
+  destruct (chk_sound esc width c1 md _ _ _ _ (wrap_words_ok esc width c0 c1 md ws))
     as [Lo [H1 [H2 [_ [_ H5]]]]].
   exists Lo; auto.
 Qed.
@@ -232,15 +234,6 @@ Proof.
     split; [discriminate|]. apply nows_cons; split; [apply bsl_not_space|assumption].
 Qed.
 
-Lemma esc_lines_good md Lo : Forall (Forall goodword) Lo ->
-  forall b, Forall (Forall goodword) (esc_lines md b Lo).
-Proof.
-  induction 1 as [|l r Hl Hr IH]; intros b; constructor; [|apply IH].
-  destruct b; [assumption|]. destruct l as [|h t]; [constructor|].
-  inversion Hl; subst. cbn [esc_head]. constructor; [|assumption].
-  destruct md; [now apply goodword_escape|assumption].
-Qed.
-
 Lemma Forall_concat_inv {A} (P : A -> Prop) (Lo : list (list A)) :
   Forall P (concat Lo) -> Forall (Forall P) Lo.
 Proof.
@@ -250,16 +243,15 @@ Proof.
 Qed.
 
 (* With width > 0, whitespace normalisation on: re-reading the output lines as words
-   gives exactly the words of the model's line structure (so no word is dropped,
-   invented, merged or split), for plain text. *)
-Theorem wrap_text_lossless_plain text width c0 c1 : 0 < width ->
-  concat (map split_ws (wrap_paragraph_lines split_ws text width c0 c1 true true false))
+   gives exactly the input words (no word dropped, invented, merged or split), plain text. *)
+Theorem wrap_text_lossless_plain esc text width c0 c1 : 0 < width ->
+  concat (map split_ws (wrap_paragraph_lines esc split_ws text width c0 c1 true true false))
   = split_ws text.
 Proof.
   intros Hw. unfold wrap_paragraph_lines, maybe.
   destruct (width <=? 0) eqn:E; [apply Z.leb_le in E; lia|].
   rewrite split_ws_collapse.
-  destruct (wrap_lossless (split_ws text) width c0 c1 false) as [Lo [H1 [H2 H3]]].
+  destruct (wrap_lossless esc (split_ws text) width c0 c1 false) as [Lo [H1 [H2 H3]]].
   rewrite H3, esc_lines_plain, map_map.
   assert (G : Forall (Forall goodword) Lo).
   { apply Forall_concat_inv. pose proof (split_ws_good text) as G0. rewrite <- H1 in G0. exact G0. }
@@ -269,8 +261,8 @@ Proof.
 Qed.
 
 (* width <= 0: exactly one line (none for blank text) carrying the same words. *)
-Theorem wrap_nowrap splitter text width c0 c1 md : width <= 0 ->
-  let out := wrap_paragraph_lines splitter text width c0 c1 true true md in
+Theorem wrap_nowrap esc splitter text width c0 c1 md : width <= 0 ->
+  let out := wrap_paragraph_lines esc splitter text width c0 c1 true true md in
   (length out <= 1)%nat /\ concat (map split_ws out) = split_ws text /\
   (out = [] <-> split_ws text = []).
 Proof.
